@@ -8,7 +8,7 @@
     cubed/core/ops.py  _partial_reduce (loop with `result = None`) / tree_reduce (depth rounds)               ↦ `reduceRound`, `treeReduce`
     cubed/core/ops.py  _arg_combine (argmax over the concatenated candidate values, take_along_axis)         ↦ `argmaxCombine`
     cubed/core/ops.py  scan.back_key_function (`bi // split_every`), _scan_binop (`inc[bi % split_every]`),
-                       the assertion `increment.shape[axis] == scanned.numblocks[axis]`                       ↦ `scanKeys`, `scanAccepts`, `scanIncPos`, `scanOut1`
+                       the assertion `increment.shape[axis] == scanned.numblocks[axis]`                       ↦ `scanKeys`, `scanReducedSizes`, `scanAccepts` (`scanAcceptsOld` before 5fff6ae), `scanIncPos`, `scanOut1`
     cubed/core/ops.py  map_selection.back_key_function / _assemble_index_chunk via zarr OrthogonalIndexer     ↦ `Sel`, `selElems`, `selBlocks`, `mapSelectionKeys`, `assembleIndexChunk1`, `selPick`, `assembleIndexChunkN`
     cubed/core/ops.py  _rechunk / merge_chunks selection_function = get_item(target_chunks, out_coords)       ↦ `rechunkSel`
     cubed/core/indexing.py _target_chunk_selection (offset + step * cumsum(target_chunks))                    ↦ `targetChunkSel`
@@ -17,7 +17,7 @@
         repeat.back_key_function (`bi // repeats`), _repeat (slice `bi % repeats` of the repeated block)      ↦ `repeatKey`, `repeatBlock1`
         concat `_array_slices` (bisect over cumulative offsets)                                              ↦ `arraySlices`
         concat.back_key_function (pieces × zarr indexer over each array's own chunks)                        ↦ `concatKeys`
-        stack.back_key_function (array `out[axis]`, coords without `axis`), _read_stack_chunk               ↦ `stackKey`, `stackEval`
+        stack.back_key_function (array `out[axis]`, coords without `axis`), _read_stack_chunk               ↦ `stackKey`, `stackEval` (block op / OLD variant), `stackAccepts`, `stackUnified` (since f3856f5)
         unstack.back_key_function (all blocks along `axis`), _unstack_chunk (m-th yielded slice)             ↦ `unstackKeys`, `unstackPos`
         reshape_chunks.back_key_function (ravel over out numblocks, unravel over in numblocks)               ↦ `reshapeKey`
     cubed/utils.py offset_to_block_id / block_id_to_offset (block ids through the virtual offsets array)      ↦ `ArraySem.unravel` / `ArraySem.ravel`
@@ -93,9 +93,17 @@ def argmaxCombine (a b : Nat × Nat) : Nat × Nat := if a.2 < b.2 then b else a
 /-- `split_size = min(split_every, numblocks)`. -/
 def scanSplitSize (s nb : Nat) : Nat := min s nb
 
-/-- the assertion `increment.shape[axis] == scanned.numblocks[axis]`: the increment array is declared with
-`ceil(nb / split_size)` chunks of `split_size`. -/
-def scanAccepts (s nb : Nat) : Bool := nblocks nb (scanSplitSize s nb) * scanSplitSize s nb == nb
+/-- OLD variant (before 5fff6ae): the assertion `increment.shape[axis] == scanned.numblocks[axis]` when the
+increment array was declared with `ceil(nb / split_size)` chunks of `split_size`. -/
+def scanAcceptsOld (s nb : Nat) : Bool := nblocks nb (scanSplitSize s nb) * scanSplitSize s nb == nb
+
+/-- (since 5fff6ae) `reduced_sizes = (split_size,) * (nb // split_size) + ((nb % split_size,) if nb % split_size else ())`:
+the chunk sizes `scan` declares for the array of per-block totals (passed to `partial_reduce` as an explicit
+`combine_sizes` tuple) — the last group holds fewer values when the groups do not divide `nb`. -/
+def scanReducedSizes (s nb : Nat) : List Nat := chunksOf nb (scanSplitSize s nb)
+
+/-- the assertion `increment.shape[axis] == scanned.numblocks[axis]` with the sizes declared since 5fff6ae. -/
+def scanAccepts (s nb : Nat) : Bool := (scanReducedSizes s nb).sum == nb
 
 /-- out block `out` reads `scanned[out]` and `increment[out with axis ↦ bi // split_every]`. -/
 def scanKeys (axis s : Nat) (out : List Nat) : List Nat × List Nat := (out, onAxis (· / s) axis out)
@@ -279,6 +287,23 @@ def stackEval {α : Type} (arrs : Nat → List Nat → α) (shapes css : Nat →
       | none => none
       | some js' => some (arrs k (glob (css k) b' (eraseAt axis js')))
     else none
+
+/-- `stack` raises `ValueError` unless every input has the shape of the first (since f3856f5). -/
+def stackAccepts : List (List Nat) → Bool
+  | [] => false
+  | s :: rest => rest.all (· == s)
+
+/-- `stack` since f3856f5 ("unify chunks"): every input whose chunks differ from the first input's is
+replaced by `rechunk(x, a.chunksize)` (a `map_selection` op, modelled by `assembleIndexChunkN` over
+`rechunkSel`), then the block-level op `stackEval` runs on inputs that all have the first's chunking.
+`stackEval` with per-input chunkings is the OLD variant (no unification). -/
+def stackUnified {α : Type} (arrs : Nat → List Nat → α) (shape : List Nat) (css : Nat → List Nat) (axis : Nat)
+    (is : List Nat) : Option α :=
+  (stackEval
+    (fun k idx =>
+      if css k = css 0 then some (arrs k idx)
+      else assembleN (css 0) (fun b js => assembleIndexChunkN (arrs k) (css k) (rechunkSel shape (css 0) b) js) idx)
+    (fun _ => shape) (fun _ => css 0) axis is).bind id
 
 /-- `unstack.back_key_function`: all `nb` blocks along `axis`. -/
 def unstackKeys (axis nb : Nat) (out : List Nat) : List (List Nat) :=
